@@ -120,7 +120,9 @@ def t3(rep, tier, seed):
             if a[0] != 0 or a[:2] != b[:2]:
                 rep.violation("spec", "a randomised verb/function is not reproducible under --seed across batch sizes / schedules", {"chain": chain, "exit": [a[0], b[0]]}, True)
         # tail -f contract: with --records-per-batch 1 --fflush each input line's output is readable before the next line is written
-        for chain in [["cat"], ["put", "$z = $x . \"!\""], ["filter", "true", "then", "cat", "-n"]]:
+        # (the last three chains write TEXT only - print, dump, emit - and no record of their own)
+        for chain in [["cat"], ["put", "$z = $x . \"!\""], ["filter", "true", "then", "cat", "-n"],
+                      ["put", "-q", 'print "{\\"x\\": " . $x . "}"'], ["put", "-q", "dump $*"], ["put", "-q", "emit mapsum($*, {\"y\": 1})"]]:
             p = subprocess.Popen([mlr, "--norc", "--records-per-batch", "1", "--fflush", "--idkvp", "--ojson"] + chain,
                                  stdin=subprocess.PIPE, stdout=subprocess.PIPE, stderr=subprocess.PIPE)
             ok = True
@@ -164,7 +166,7 @@ def check(tier, seed):
             "T2: the real Stream (reader, chain and writer goroutines) in-process under 5 batch sizes x both hashing modes, compared with the model's chainRun where the chain is modelled (harness/c04.go)",
             "T3: the real binary, plain and -tags verif with MLR_VERIF_PERTURB seeds (yield/sleep at the lib.VerifPoint hand-over points, commit b0e5a132a), GOMAXPROCS 1/2/4/16, wall-clock timeouts; a schedule that the perturbation does not reach is not explored",
         ],
-        rule="T2: seeded streams (0-40 records) x 43 chains (streaming, non-streaming, early-exit, head after head, tee before head, seqgen then head, emit/print mixing, seeded random verbs) x batch sizes 1,2,3,7,500 x hashing on/off. T3: 9-14 chains x 3-5 input sets (0..1700 records, several files incl. empty) x batch sizes 1,2,499,500,501,100000, --nr-progress-mod, hashing, GOMAXPROCS, 2-8 perturbation seeds; 3 early-exit chains over a 10^9-record generator; failing input under 5 settings; 5 seeded-random chains; tail -f contract on 3 streaming chains x 6 lines",
+        rule="T2: seeded streams (0-40 records) x 43 chains (streaming, non-streaming, early-exit, head after head, tee before head, seqgen then head, emit/print mixing, seeded random verbs) x batch sizes 1,2,3,7,500 x hashing on/off. T3: 9-14 chains x 3-5 input sets (0..1700 records, several files incl. empty) x batch sizes 1,2,499,500,501,100000, --nr-progress-mod, hashing, GOMAXPROCS, 2-8 perturbation seeds; 3 early-exit chains over a 10^9-record generator; failing input under 5 settings; 5 seeded-random chains; tail -f contract on 6 streaming chains (3 of them text-only: print, dump, emit under put -q) x 6 lines",
         extra=t3,
     )
 
